@@ -1,0 +1,74 @@
+//! Verification hooks (feature `verif-hooks`): thin wrappers that only *call* the private
+//! functions of `sampling.rs` so that an external harness can exercise them directly.
+use super::*;
+
+pub fn box_muller_pair<T: MomTropFloat>(x1: &T, x2: &T) -> (T, T) {
+    box_muller(x1, x2)
+}
+
+/// Feynman parameters (after rescaling), u_trop, v_trop as returned by `permatuhedral_sampling`.
+pub fn permatuhedral<T: MomTropFloat, #[cfg(feature = "log")] L: Logger>(
+    table: &TropicalSubgraphTable,
+    x_space_point: &[T],
+    settings: &TropicalSamplingSettings,
+    #[cfg(feature = "log")] logger: &L,
+) -> (Vec<T>, T, T) {
+    let mut rng = MimicRng::new(x_space_point);
+    let res = permatuhedral_sampling(
+        table,
+        &mut rng,
+        settings,
+        #[cfg(feature = "log")]
+        logger,
+    );
+    (res.x, res.u_trop, res.v_trop)
+}
+
+pub fn l_matrix<T: MomTropFloat>(x_vec: &[T], signature: &[Vec<isize>]) -> SquareMatrix<T> {
+    compute_l_matrix(x_vec, signature)
+}
+
+pub fn q_vectors<T: MomTropFloat, const D: usize>(
+    x_space_point: &[T],
+    dimension: usize,
+    num_loops: usize,
+) -> Vec<Vector<T, D>> {
+    let mut rng = MimicRng::new(x_space_point);
+    sample_q_vectors(&mut rng, dimension, num_loops)
+}
+
+pub fn u_vectors<T: MomTropFloat, const D: usize>(
+    x_vec: &[T],
+    signature: &[Vec<isize>],
+    edge_shifts: &[&Vector<T, D>],
+) -> Vec<Vector<T, D>> {
+    compute_u_vectors(x_vec, signature, edge_shifts)
+}
+
+pub fn v_polynomial<T: MomTropFloat, const D: usize>(
+    x_vec: &[T],
+    u_vectors: &[Vector<T, D>],
+    inverse_l: &SquareMatrix<T>,
+    edge_shifts: &[&Vector<T, D>],
+    edge_masses: &[T],
+) -> T {
+    compute_v_polynomial(x_vec, u_vectors, inverse_l, edge_shifts, edge_masses)
+}
+
+pub fn loop_momenta<T: MomTropFloat, const D: usize>(
+    v: &T,
+    lambda: &T,
+    q_t_inverse: &SquareMatrix<T>,
+    q_vectors: &[Vector<T, D>],
+    l_inverse: &SquareMatrix<T>,
+    u_vectors: &[Vector<T, D>],
+) -> Vec<Vector<T, D>> {
+    compute_loop_momenta(v, lambda, q_t_inverse, q_vectors, l_inverse, u_vectors)
+}
+
+pub fn only_shift<T: MomTropFloat, const D: usize>(
+    l_inverse: &SquareMatrix<T>,
+    u_vectors: &[Vector<T, D>],
+) -> Vec<Vector<T, D>> {
+    compute_only_shift(l_inverse, u_vectors)
+}
